@@ -151,7 +151,7 @@ theorem translate_ok_visible {hs : List Path} {c c' : Call} (h : translate hs c 
                   cases e
                   exact ⟨hp1, hp2⟩
   case symlink o n =>
-    cases h1 : hguard hs (if isAbs o = true then o else join (dir n) o) .hiddenPerm with
+    cases h1 : hguard hs (if isAbs o = true then o else join (dir (clean n)) o) .hiddenPerm with
     | error e => rw [h1] at h; cases h
     | ok u1 =>
       rw [h1] at h
